@@ -511,6 +511,9 @@ class MiniEval(object):
         # a function of the package held in a name (a table of checkers, a helper): evaluated in its own frame, with the same stand-ins
         if isinstance(e.func, ast.Name) and fn not in self.stubs and fn not in self.stop_at and fn not in self.symbolic:
             fv = env.get(e.func.id) if e.func.id in env else (("<pkgfn>", self.fi.module.funcs[e.func.id]) if e.func.id in self.fi.module.funcs else None)
+            if isinstance(fv, tuple) and len(fv) == 2 and fv[0] == "<pkgfn>" and [d_ for d_ in fv[1].decorators if d_ not in ("staticmethod",)]:
+                # a decorator (a cache, a wrapper) is part of what the call does, and it is not evaluated here
+                raise Undecided("minieval: call of the decorated function %s" % fv[1].qual)
             if isinstance(fv, tuple) and len(fv) == 2 and fv[0] == "<pkgfn>":
                 kw = {k.arg: self.ev(k.value, env) for k in e.keywords if k.arg is not None}
                 if kw or any(k.arg is None for k in e.keywords):
